@@ -107,6 +107,35 @@ def run_oracle(rep, orc, rng, tier, kind="rel", budget_scale=1.0):
     return fails
 
 
+def encode_script(script):
+    """known_findings.json replay script -> case line; {"t": text} arguments are hex encoded"""
+    cmds = []
+    for cmd in script:
+        cmds.append(" ".join(vlib.hexs(a["t"]) if isinstance(a, dict) else str(a) for a in cmd))
+    return "\t".join(cmds)
+
+
+def replay_known(rep):
+    """for each listed known finding with a replay recipe: run it; print KNOWN-FINDING when it still fails"""
+    import re
+    for k in rep.known:
+        if k.get("status") != "known" or "replay" not in k:
+            continue
+        rp = k["replay"]
+        try:
+            exe = vlib.build_driver(rp["driver"], "rel", rp.get("extra_cflags", ""))
+        except vlib.BuildError:
+            continue
+        line = rp["line"] if "line" in rp else (rp.get("component", "lyx") + "\t" + encode_script(rp["script"]))
+        outs, _ = vlib.run_cases(exe, [line], timeout=120)
+        still = bool(re.search(rp["still_fails_if"], outs[0])) if outs else False
+        rep.count("known:" + k["tag"], line)
+        if still:
+            rep.print_known(k)
+        else:
+            rep.notes.append("known finding %s no longer reproduces with its recorded witness (output: %s)" % (k["tag"], (outs[0] if outs else "")[:200]))
+
+
 def main():
     ap = argparse.ArgumentParser()
     ap.add_argument("pid")
@@ -176,6 +205,17 @@ def main():
                 rep.notes.append(str(e)[-1500:])
                 mism = []
                 proof_ok = False
+            # disagreements that are instances of a listed known finding are attributed to it, not to the tie
+            if mism and hasattr(comp, "witness"):
+                rest = []
+                for mm in mism:
+                    w = comp.witness(mm[0], mm[1], mm[2])
+                    k = rep.known_tag(w[0]) if (w and w[0]) else None
+                    if k:
+                        rep.print_known(k)
+                    else:
+                        rest.append(mm)
+                mism = rest
             if mism:
                 rep.broken.append("correspondence %s (%s): %d cases differ" % (comp.name, kind, len(mism)))
                 mism_all.append((comp, kind, mism))
@@ -183,7 +223,7 @@ def main():
     # ---------------- O: property-level oracles on the implementation ----------------
     found_input = False
     scale = 1.0 if (proof_ok and not mism_all) else 4.0       # S: deeper search when something broke
-    for orc in prop.oracles():
+    for orc in (prop.oracles_() if hasattr(prop, 'oracles_') else prop.oracles()):
         okinds = [k for k in (getattr(orc, "kinds", None) or kinds) if k in vlib.KIND_FLAGS]
         if tier == "quick":
             okinds = [k for k in okinds if k == "rel" or getattr(orc, "quick_sanitize", False)]
@@ -226,9 +266,8 @@ def main():
         rep.violation({"what": "a proof obligation of this property no longer checks against the current tree",
                        "broken": rep.broken, "notes": rep.notes}, no_input=True)
 
-    # known findings that are replayed explicitly
-    if hasattr(prop, "replay_known"):
-        prop.replay_known(rep)
+    # known findings are replayed explicitly from their recorded witness on every run
+    replay_known(rep)
 
     rc = rep.finish(level=getattr(prop, "LEVEL", "proof"),
                     checker_cmd="make -C coq (coq_makefile, coqc 8.16.1) && coqc -Q coq LY coq/Properties_%s.v" % pid)
